@@ -36,6 +36,8 @@ def canon_len(e, names):
         m[S.call("len", S.sym(nm))] = N
         m[S.call(".size", S.sym(nm), S.ZERO)] = N
         m[S.call("getitem", S.sym(nm + ".shape"), S.ZERO)] = N
+        m[S.call(".numel", S.sym(nm))] = N  # 1-D signal (checked by the port before anything else)
+        m[S.sym(nm + ".size")] = N
     return S.subst(e, m)
 
 
@@ -55,6 +57,20 @@ def same(ctx, R, func, node, what, got, want, domain=None, critical=True):
                 % (what, S.show(g), S.show(w), res["witness"], res["values"][0], res["values"][1]),
                 "%s == %s" % (what, S.show(w)), extra={"witness": res["witness"]})
         return False
+    # piecewise integer forms over the framing parameters only: exhaustive comparison on a declared grid
+    names = set(S.symbols(g)) | set(S.symbols(w))
+    if names <= {"L", "S", "N", "D"}:
+        grid = {"L": [Fraction(v) for v in range(1, 13)], "S": [Fraction(v) for v in range(1, 13)], "N": [Fraction(v) for v in range(0, 40)],
+                "D": [Fraction(v) for v in range(1, 13)]}
+        grid = {k: v for k, v in grid.items() if k in names}
+        r2 = S.compare_on_grid(g, w, grid, None)
+        if r2["verdict"] == "equal-on-grid":
+            ctx.ok(R, func.loc(node) if node is not None else func.loc(), "%s == %s (bounded: all L, S, D in 1..12, N in 0..39; %d points)" % (what, S.show(w), r2["points"]))
+            return True
+        if r2["verdict"] == "differ":
+            ctx.bad(R, func, node, "%s is %s, expected %s; they differ e.g. at %s (%s vs %s)" % (what, S.show(g), S.show(w), r2["witness"], r2["values"][0], r2["values"][1]),
+                    "%s == %s" % (what, S.show(w)), extra={"witness": r2["witness"]})
+            return False
     raise AnalysisError("%s: cannot decide %s: %s" % (R, what, res["reason"]))
 
 
@@ -214,9 +230,17 @@ def torch_geometry(ctx, R, centered, kaldi):
             empties.append((g, canon_len(sh[0], [sig]), sh[1], node))
         else:
             fulls.append((g, v, node))
-    if len(empties) != 1 or len(fulls) != 1:
-        raise AnalysisError("%s: expected one empty and one full return in pytorch_stft_frame_computer, found %d/%d" % (R, len(empties), len(fulls)))
-    out["empty"] = empties[0]
+    if len(empties) < 1 or len(fulls) != 1:
+        raise AnalysisError("%s: expected empty return(s) and one full return in pytorch_stft_frame_computer, found %d/%d" % (R, len(empties), len(fulls)))
+    out["empties"] = empties
+    # the signal is too short when any of the empty returns is taken (guards are cumulative path conditions)
+    def proj(gd):
+        # argument-validation conjuncts (rank, matching list lengths, window shape) guard every return alike
+        if gd.op == "and":
+            keep = [a for a in gd.args if "N" in S.symbols(a)]
+            return S.eand(*keep) if keep else S.TRUE
+        return gd
+    out["empty"] = (S.eor(*[proj(e[0]) for e in empties]) if len(empties) > 1 else empties[0][0], empties[-1][1], empties[-1][2], empties[-1][3])
     out["full"] = fulls[0]
     strided = find_sub(fulls[0][1], lambda x: cc.is_call(x, ".as_strided"))
     if not strided:
